@@ -290,6 +290,36 @@ struct builder
             return any_s(ex::when_all(std::move(c1), std::move(c2)) |
                 ex::then([](tracked a, tracked b) { return tracked(a.v + b.v); }));
         }
+        if (op == "split2r")
+        {
+            // two consumers of one split; each turns the error it is handed into a value by itself
+            any_s s = build();
+            auto sp = ex::split(std::move(s));
+            auto code = [](std::exception_ptr ep) {
+                if (!ep) return -1000;
+                try
+                {
+                    std::rethrow_exception(ep);
+                }
+                catch (term_error const& te)
+                {
+                    return te.e;
+                }
+                catch (...)
+                {
+                    return -1;
+                }
+            };
+            auto consumer = [&] {
+                return any_s(ex::let_error(
+                    any_s(ex::when_all(sp | ex::then([](tracked const& x) { return tracked(x.v); }))),
+                    [code](std::exception_ptr& ep) { return any_s(ex::just(tracked(100 + code(ep)))); }));
+            };
+            any_s c1 = consumer();
+            any_s c2 = consumer();
+            return any_s(ex::when_all(std::move(c1), std::move(c2)) |
+                ex::then([](tracked a, tracked b) { return tracked(a.v + b.v); }));
+        }
         if (op == "when_all")
         {
             any_s a = build();
